@@ -2,42 +2,51 @@
    ONLY restatements closed by `exact`, each followed by Print Assumptions.
    Model: Loader/Model.v; proofs: Loader/Theory.v.
 
-   Reading aid.  `run cfg ops` is the loader's state after the history `ops`
+   Reading aid.  `run fuel cfg ops` is the loader's state after the history `ops`
    (Serve u r | Load u | Tick dt) started from the empty state; `cfg` fixes the
    cache mode (default / off / memory engine with embedded documents / third
    party engine, possibly failing), the IPFS client and gateway, and two
    recorded primitives: `url_ok` (http.NewRequest succeeds) and `cc`
    (the answers of pquerna/cachecontrol for a header set: may it be stored,
    for how many seconds is it fresh, does it carry no-cache; `storable cfg p`
-   is the loader's shouldCache = cc_store && not cc_nocache).  EVERY theorem holds for every `cfg`,
-   i.e. whatever those primitives answer, and for every history `ops`.
+   is the loader's shouldCache = cc_store && not cc_nocache).  EVERY theorem
+   holds for every `cfg`, i.e. whatever those primitives answer, for every
+   history `ops` and every `fuel` (the bound on nested rel=alternate links).
    `elapsed pre` is the time at which the operation after the prefix `pre`
    runs, `served pre k` is what the origin answers at key k at that moment
-   (both are functions of the history alone).  `RResp 200 (BJson d) p` is a
+   (both are functions of the history alone).  `RResp 200 (BJson d) p None` is a
    200 response whose body is the JSON document (version) d with cache headers
-   p.  The request log `reqlog` is part of the state, so `st' = run cfg ops`
-   says in particular that no request was issued. *)
+   p and no rel=alternate Link header.  The request log `reqlog` is part of the
+   state, so `st' = run fuel cfg ops` says in particular that no request was issued.
+
+   The property's histories have no Link header: the freshness theorems carry the
+   explicit hypothesis that no response of the history has a rel=alternate link
+   (spelled out below; it is `link_free_ops ops` in Loader/Theory.v), the
+   state-level ones that no response of the state has one.  With such links two of
+   them fail: C19_link_reuse_refuted, C19_link_diverges_refuted (observations O-L2, O-L1). *)
 From Coq Require Import ZArith NArith List String Bool.
 From GSP Require Import Base.Prelude Loader.Model Loader.Theory.
 Import ListNotations.
 Open Scope Z_scope.
 
 (* Every cache entry was obtained by an earlier load from a 200 response with a JSON body whose
-   headers the library allowed to store; its expiry is the time of that load plus the lifetime the
+   headers the loader accepts for storing; its expiry is the time of that load plus the lifetime the
    library computed (the zero time if none).  Embedded URLs never enter the cache. *)
 Theorem C19_inv :
-  forall cfg ops k d e,
-  In (k, (d, e)) (cache (run cfg ops)) ->
+  forall fuel cfg ops k d e,
+  (forall u code b p t, ~ In (Serve u (RResp code b p (Some t))) ops) ->
+  In (k, (d, e)) (cache (run fuel cfg ops)) ->
   assoc String.eqb k (embedded cfg) = None /\
   exists pre u post p,
     ops = pre ++ Load u :: post /\ route_of cfg u = ToHttp k /\
-    served pre k = RResp 200 (BJson d) p /\ storable cfg p = true /\
+    served pre k = RResp 200 (BJson d) p None /\ storable cfg p = true /\
     e = expiry_of (cc_lifetime cfg p) (elapsed pre).
 Proof. exact cache_from_history. Qed.
 Print Assumptions C19_inv.
 
 (* Embedded documents: never overwritten (Set on an embedded key changes nothing), and returned
-   by every load in EVERY state without any request and without any other change. *)
+   by every load in EVERY state (whatever the origin serves) without any request and without any
+   other change. *)
 Theorem C19_embedded_not_overwritten :
   forall cfg st k d d' e,
   assoc String.eqb k (embedded cfg) = Some d -> engine_set cfg st k d' e = Some st.
@@ -45,9 +54,9 @@ Proof. exact embedded_not_overwritten. Qed.
 Print Assumptions C19_embedded_not_overwritten.
 
 Theorem C19_embedded_served :
-  forall cfg st u k d,
+  forall fuel cfg st u k d,
   route_of cfg u = ToHttp k -> assoc String.eqb k (embedded cfg) = Some d ->
-  load cfg st u = (st, Ok d).
+  load fuel cfg st u = (st, Ok d).
 Proof. exact embedded_served. Qed.
 Print Assumptions C19_embedded_served.
 
@@ -59,24 +68,25 @@ Print Assumptions C19_embedded_served.
    (3) the embedded document — and nothing changes, no request.
    Panic/Diverge are not among the outcomes. *)
 Theorem C19_fresh :
-  forall cfg ops u st' out,
-  load cfg (run cfg ops) u = (st', out) ->
+  forall fuel cfg ops u st' out,
+  (forall u code b p t, ~ In (Serve u (RResp code b p (Some t))) ops) ->
+  load fuel cfg (run fuel cfg ops) u = (st', out) ->
   (exists t, out = Err t) \/
   exists d, out = Ok d /\
    ((exists c k p,
-       chan_key cfg u = Some (c, k) /\ served ops k = RResp 200 (BJson d) p /\
-       reqlog st' = (c, k, elapsed ops, RResp 200 (BJson d) p) :: reqlog (run cfg ops))
+       chan_key cfg u = Some (c, k) /\ served ops k = RResp 200 (BJson d) p None /\
+       reqlog st' = (c, k, elapsed ops, RResp 200 (BJson d) p None) :: reqlog (run fuel cfg ops))
     \/
     (exists k pre u0 post p l,
        route_of cfg u = ToHttp k /\ assoc String.eqb k (embedded cfg) = None /\
        ops = pre ++ Load u0 :: post /\ route_of cfg u0 = ToHttp k /\
-       served pre k = RResp 200 (BJson d) p /\ storable cfg p = true /\
+       served pre k = RResp 200 (BJson d) p None /\ storable cfg p = true /\
        cc_lifetime cfg p = Some l /\ elapsed ops < elapsed pre + l /\
-       In (k, (d, TAt (elapsed pre + l))) (cache (run cfg ops)) /\
-       st' = run cfg ops)
+       In (k, (d, TAt (elapsed pre + l))) (cache (run fuel cfg ops)) /\
+       st' = run fuel cfg ops)
     \/
     (exists k, route_of cfg u = ToHttp k /\ assoc String.eqb k (embedded cfg) = Some d /\
-               st' = run cfg ops)).
+               st' = run fuel cfg ops)).
 Proof. exact load_fresh. Qed.
 Print Assumptions C19_fresh.
 
@@ -84,17 +94,18 @@ Print Assumptions C19_fresh.
    if that is the case for every response with document d an earlier load obtained at k, a load
    that returns d has fetched it with a request just now and d is what the origin serves now. *)
 Theorem C19_no_reuse :
-  forall cfg ops u k d st',
-  load cfg (run cfg ops) u = (st', Ok d) ->
+  forall fuel cfg ops u k d st',
+  (forall u code b p t, ~ In (Serve u (RResp code b p (Some t))) ops) ->
+  load fuel cfg (run fuel cfg ops) u = (st', Ok d) ->
   route_of cfg u = ToHttp k ->
   assoc String.eqb k (embedded cfg) = None ->
   (forall pre u0 post p,
      ops = pre ++ Load u0 :: post -> route_of cfg u0 = ToHttp k ->
-     served pre k = RResp 200 (BJson d) p ->
+     served pre k = RResp 200 (BJson d) p None ->
      storable cfg p = false \/ cc_lifetime cfg p = None \/
      (exists l, cc_lifetime cfg p = Some l /\ elapsed pre + l <= elapsed ops)) ->
-  exists p, served ops k = RResp 200 (BJson d) p /\
-            reqlog st' = (CHttp, k, elapsed ops, RResp 200 (BJson d) p) :: reqlog (run cfg ops).
+  exists p, served ops k = RResp 200 (BJson d) p None /\
+            reqlog st' = (CHttp, k, elapsed ops, RResp 200 (BJson d) p None) :: reqlog (run fuel cfg ops).
 Proof. exact load_no_reuse. Qed.
 Print Assumptions C19_no_reuse.
 
@@ -102,24 +113,25 @@ Print Assumptions C19_no_reuse.
    refuses no-store / private, reports the no-cache directive, and gives no lifetime without
    freshness information); the recorded table is checked against this assumption on every run. *)
 Theorem C19_no_reuse_headers :
-  forall cfg ops u k d st',
+  forall fuel cfg ops u k d st',
+  (forall u code b p t, ~ In (Serve u (RResp code b p (Some t))) ops) ->
   ((forall p, match p with PNoStore | PPrivate | PPrivateMaxAge _ | PNoStoreMaxAge _ => True | _ => False end ->
               cc_store cfg p = false) /\
    (forall p, match p with PNoCache | PNoCacheMaxAge _ => True | _ => False end ->
               cc_nocache cfg p = true) /\
    (forall p, match p with PNone | PNoCache | PExpiresInvalid => True | _ => False end ->
               cc_lifetime cfg p = None)) ->
-  load cfg (run cfg ops) u = (st', Ok d) ->
+  load fuel cfg (run fuel cfg ops) u = (st', Ok d) ->
   route_of cfg u = ToHttp k ->
   assoc String.eqb k (embedded cfg) = None ->
   (forall pre u0 post p,
      ops = pre ++ Load u0 :: post -> route_of cfg u0 = ToHttp k ->
-     served pre k = RResp 200 (BJson d) p ->
+     served pre k = RResp 200 (BJson d) p None ->
      match p with PNoStore | PPrivate | PPrivateMaxAge _ | PNoStoreMaxAge _ => True | _ => False end \/
      match p with PNoCache | PNoCacheMaxAge _ => True | _ => False end \/
      match p with PNone | PNoCache | PExpiresInvalid => True | _ => False end) ->
-  exists p, served ops k = RResp 200 (BJson d) p /\
-            reqlog st' = (CHttp, k, elapsed ops, RResp 200 (BJson d) p) :: reqlog (run cfg ops).
+  exists p, served ops k = RResp 200 (BJson d) p None /\
+            reqlog st' = (CHttp, k, elapsed ops, RResp 200 (BJson d) p None) :: reqlog (run fuel cfg ops).
 Proof. exact load_no_reuse_headers. Qed.
 Print Assumptions C19_no_reuse_headers.
 
@@ -128,37 +140,51 @@ Print Assumptions C19_no_reuse_headers.
    a load of u leaves the cache as it is and returns an error, or a cached-and-fresh / embedded
    document without any request.  And no load that returns an error changes the cache. *)
 Theorem C19_failures :
-  forall cfg ops u st' out c k,
-  load cfg (run cfg ops) u = (st', out) -> chan_key cfg u = Some (c, k) ->
-  (forall d p, served ops k <> RResp 200 (BJson d) p) ->
-  cache st' = cache (run cfg ops) /\
+  forall fuel cfg ops u st' out c k,
+  (forall u code b p t, ~ In (Serve u (RResp code b p (Some t))) ops) ->
+  load fuel cfg (run fuel cfg ops) u = (st', out) -> chan_key cfg u = Some (c, k) ->
+  (forall d p, served ops k <> RResp 200 (BJson d) p None) ->
+  cache st' = cache (run fuel cfg ops) /\
   ((exists t, out = Err t) \/
    (exists d, out = Ok d /\
      ((exists k pre u0 post p l,
         route_of cfg u = ToHttp k /\ assoc String.eqb k (embedded cfg) = None /\
         ops = pre ++ Load u0 :: post /\ route_of cfg u0 = ToHttp k /\
-        served pre k = RResp 200 (BJson d) p /\ storable cfg p = true /\
+        served pre k = RResp 200 (BJson d) p None /\ storable cfg p = true /\
         cc_lifetime cfg p = Some l /\ elapsed ops < elapsed pre + l /\
-        In (k, (d, TAt (elapsed pre + l))) (cache (run cfg ops)) /\
-        st' = run cfg ops)
+        In (k, (d, TAt (elapsed pre + l))) (cache (run fuel cfg ops)) /\
+        st' = run fuel cfg ops)
       \/
       (exists k, route_of cfg u = ToHttp k /\ assoc String.eqb k (embedded cfg) = Some d /\
-                 st' = run cfg ops)))).
+                 st' = run fuel cfg ops)))).
 Proof. exact load_failure. Qed.
 Print Assumptions C19_failures.
 
 Theorem C19_failures_error_keeps_cache :
-  forall cfg st u st' t, load cfg st u = (st', Err t) -> cache st' = cache st.
+  forall fuel cfg st u st' t,
+  (forall k code b p t, origin st k <> RResp code b p (Some t)) ->
+  load fuel cfg st u = (st', Err t) -> cache st' = cache st.
 Proof. exact load_err_cache. Qed.
 Print Assumptions C19_failures_error_keeps_cache.
 
-(* Routing.  `route_of` is the decision table (second theorem: all its rows, for all
-   configurations); a load issues at most one request, and only to the client of its row:
-   ToHttp k -> nothing or one request to the HTTP client for k; ToNode r -> exactly one request to
-   the IPFS client; Reject -> an error, state unchanged, no request. *)
+(* Routing.  `route_of` is the decision table (C19_route_table: all its rows, for all
+   configurations).  C19_route_dispatch: whatever the origin serves, a load is the HTTP path for the
+   key of its row / the IPFS-client path / an immediate error with the state unchanged.
+   C19_route: (no alternate links) a load issues at most one request, and only to the client of its row. *)
+Theorem C19_route_dispatch :
+  forall fuel cfg st u,
+  match route_of cfg u with
+  | ToHttp k => load fuel cfg st u = load_http (recf fuel cfg) cfg st k
+  | ToNode r => load fuel cfg st u = load_node cfg st r
+  | Reject => exists t, load fuel cfg st u = (st, Err t)
+  end.
+Proof. exact load_route_dispatch. Qed.
+Print Assumptions C19_route_dispatch.
+
 Theorem C19_route :
-  forall cfg st u st' out,
-  load cfg st u = (st', out) ->
+  forall fuel cfg st u st' out,
+  (forall k code b p t, origin st k <> RResp code b p (Some t)) ->
+  load fuel cfg st u = (st', out) ->
   match route_of cfg u with
   | ToHttp k => reqlog st' = reqlog st \/ reqlog st' = (CHttp, k, now st, origin st k) :: reqlog st
   | ToNode r => reqlog st' = (CNode, node_key r, now st, origin st (node_key r)) :: reqlog st
@@ -181,22 +207,68 @@ Theorem C19_route_table :
 Proof. exact route_table. Qed.
 Print Assumptions C19_route_table.
 
-(* Totality and the link to the per-run correspondence: no load panics or diverges, each issues at
-   most one request (to the client and key of its routing row); and what the correspondence check
-   compares with the real loader (`observe`) is, for every Load of a history, exactly the outcome and
-   the requests of `load` in the state the theorems above speak about. *)
+(* Totality and the link to the per-run correspondence: without alternate links no load panics or
+   diverges whatever the fuel (the fuel is irrelevant), each issues at most one request (to the client
+   and key of its routing row); and what the correspondence check compares with the real loader
+   (`observe`) is, for every Load of a history, exactly the outcome and the requests of `load` in the
+   state the theorems above speak about. *)
 Theorem C19_total :
-  forall cfg st u,
-  outcome_of (snd (load cfg st u)) <> OBad /\
-  (new_reqs st (fst (load cfg st u)) = [] \/
-   exists c k, chan_key cfg u = Some (c, k) /\ new_reqs st (fst (load cfg st u)) = [(c, k)]).
+  forall fuel cfg st u,
+  (forall k code b p t, origin st k <> RResp code b p (Some t)) ->
+  ((exists d, outcome_of (snd (load fuel cfg st u)) = ODoc d) \/
+   outcome_of (snd (load fuel cfg st u)) = OErr) /\
+  (new_reqs st (fst (load fuel cfg st u)) = [] \/
+   exists c k, chan_key cfg u = Some (c, k) /\ new_reqs st (fst (load fuel cfg st u)) = [(c, k)]).
 Proof. exact load_total. Qed.
 Print Assumptions C19_total.
 
+Theorem C19_fuel_irrelevant :
+  forall f1 f2 cfg st u,
+  (forall k code b p t, origin st k <> RResp code b p (Some t)) ->
+  load f1 cfg st u = load f2 cfg st u.
+Proof. exact load_fuel_irrelevant. Qed.
+Print Assumptions C19_fuel_irrelevant.
+
+Theorem C19_fuel_monotone :
+  forall f1 f2 cfg st u,
+  (f1 <= f2)%nat -> snd (load f1 cfg st u) <> Diverge -> load f2 cfg st u = load f1 cfg st u.
+Proof. exact load_mono. Qed.
+Print Assumptions C19_fuel_monotone.
+
 Theorem C19_observed :
-  forall cfg pre u post,
-  In (outcome_of (snd (load cfg (run cfg pre) u)),
-      new_reqs (run cfg pre) (fst (load cfg (run cfg pre) u)))
-     (observe cfg init (pre ++ Load u :: post)).
+  forall fuel cfg pre u post,
+  In (outcome_of (snd (load fuel cfg (run fuel cfg pre) u)),
+      new_reqs (run fuel cfg pre) (fst (load fuel cfg (run fuel cfg pre) u)))
+     (observe fuel cfg init (pre ++ Load u :: post)).
 Proof. exact observe_load. Qed.
 Print Assumptions C19_observed.
+
+(* ---- with rel=alternate Link headers (outside the property's quantifier) ---- *)
+
+(* O-L2: a document whose only response said no-store is returned from the cache, with no request,
+   after the origin has moved on — it was stored under the linking URL with that URL's lifetime.
+   (ex_cfg: memory engine, hand-written cachecontrol table; any fuel >= 1.) *)
+Theorem C19_link_reuse_refuted :
+  forall fuel, (1 <= fuel)%nat ->
+  let ops := [ Serve u_url (RResp 200 BGarbage (PMaxAge 3000) (Some alt_url));
+               Serve alt_url (RResp 200 (BJson 1) PNoStore None); Load u_url;
+               Serve alt_url (RResp 200 (BJson 2) PNoStore None); Tick 1000 ] in
+  let st := run fuel ex_cfg ops in
+  load fuel ex_cfg st u_url = (st, Ok 1) /\
+  served ops alt_url = RResp 200 (BJson 2) PNoStore None /\
+  cache st = [(u_url, (1, TAt 3000))] /\
+  (forall u r, In (Serve u r) ops ->
+               (exists code p alt, r = RResp code (BJson 1) p alt) ->
+               u = alt_url /\ r = RResp 200 (BJson 1) PNoStore None).
+Proof. exact link_reuse_refuted. Qed.
+Print Assumptions C19_link_reuse_refuted.
+
+(* O-L1: a response whose alternate link points to itself: the load diverges for every fuel, having
+   issued fuel+1 requests — the Go recursion has no bound. *)
+Theorem C19_link_diverges_refuted :
+  forall fuel,
+  let st := run fuel loop_cfg [Serve u_url (RResp 200 BGarbage PNoStore (Some u_url))] in
+  snd (load fuel loop_cfg st u_url) = Diverge /\
+  List.length (reqlog (fst (load fuel loop_cfg st u_url))) = S fuel.
+Proof. exact link_diverges_refuted. Qed.
+Print Assumptions C19_link_diverges_refuted.
